@@ -29,14 +29,15 @@ def variants(scn):
     bit = lambda n: bool((b >> n) & 1)
     return [
         dict(buf=False, clock="test", scale=10, profile="plain", salt=b % 2, hot=True, auxhot=True,
-             order="src" if bit(0) else "aux", short=bit(1), sched_arg=bit(2), form="pipe", twice=bit(15)),
+             order="src" if bit(0) else "aux", short=bit(1), sched_arg=bit(2), form="pipe", twice=bit(15),
+             late_cancel=bit(19)),
         dict(buf=True, clock="test", scale=2, profile="falsy", salt=b % 8, hot=False, auxhot=bit(3),
              order="src", short=bit(4), sched_arg=False, form="fluent" if bit(5) else "pipe", td=bit(6), twice=bit(16)),
         dict(buf=False, clock="hist", scale=3, profile="falsy" if bit(7) else "plain", salt=(b >> 3) % 8, hot=bit(8),
              auxhot=not bit(8), order="aux" if bit(0) else "src", short=False, sched_arg=bit(9),
              form="fluent" if bit(10) else "pipe"),
         dict(buf=True, clock="hist" if bit(11) else "test", scale=10, profile="plain", salt=1, hot=True, auxhot=True,
-             order="aux" if bit(12) else "src", short=bit(13), sched_arg=bit(14), form="pipe"),
+             order="aux" if bit(12) else "src", short=bit(13), sched_arg=bit(14), form="pipe", late_cancel=bit(20)),
     ]
 
 
@@ -47,7 +48,7 @@ def nontrivial(scn, allowed):
 
 
 def runs_for(tier):
-    base = dict(Terms={"C", "E", "U"}, CKinds={"N"}, AuxTerms={"U"}, Faults=False, Disposes=False, MaxAux=2, CountLen=5,
+    base = dict(Terms={"C", "E", "U"}, CKinds={"N"}, AuxTerms={"U"}, Faults=False, Disposes=False, ZeroDur=True, MaxAux=2, CountLen=5,
                 Counts={1, 2, 3}, Spans={1, 2, 3}, Shifts={1, 2, 3}, Durs={1, 2})
 
     def c(ops, ml, mt, **kw):
@@ -83,7 +84,7 @@ def sampled_runs(tier):
     every tie order of each sampled scenario, so allowed sets are complete"""
     if tier == "quick":
         return []
-    big = dict(Terms={"C", "E", "U"}, CKinds={"N", "C"}, AuxTerms={"U"}, Faults=False, Disposes=True, MaxAux=4, MaxLen=7, CountLen=12, MaxT=9, H=11,
+    big = dict(Terms={"C", "E", "U"}, CKinds={"N", "C"}, AuxTerms={"U"}, Faults=False, Disposes=True, ZeroDur=True, MaxAux=4, MaxLen=7, CountLen=12, MaxT=9, H=11,
                Counts={1, 2, 3, 4, 5}, Spans={1, 2, 3, 5, 7}, Shifts={1, 2, 3, 4, 6}, Durs={1, 2, 3, 5})
     return [("sampled " + f, f, dict(big, Ops={f}), 1200) for f in FAMILIES]
 
@@ -145,6 +146,10 @@ def run(tier):
         "with them is before both or after both); ties between the source, the boundary lane and timers are free",
         "window_with_count: window k >= 1 may be handed out right after element k*skip-1 or right before element k*skip "
         "(both allowed; so a trailing empty window is optional); buffer_with_count emits no empty buffer",
+        "window_when closing observables of duration 0 notify synchronously inside subscribe (BehaviorSubject / "
+        "create-based): the window closes at the instant it opened, before anything else",
+        "variant late_cancel (time, time-or-count): the operator's timer scheduler cancels only actions whose due time "
+        "has not been reached yet (best-effort cancellation, as on a thread-based scheduler); the allowed set is unchanged",
         "the run is cut half a tick after the horizon H; sources that never terminate are observed up to H only"]
     return ck.finish()
 
